@@ -287,7 +287,7 @@ for _k, _v in _ADD12.items():
         META[_k]["text"] += _v
 
 _ADD13 = {
-    "C10": " A per-try timer is parked at its hook point and released while the next attempt is being set up in the HTTP/1 pool (counted, no stream sender yet); every attempt that was counted must be given back (found /repo 10a22a28f).",
+    "C10": " A per-try timer is parked at its hook point and released while the next attempt is being set up in the HTTP/1 pool (counted, no stream sender yet); every attempt that was counted must be given back (found /repo 10a22a28f). A raw HTTP/2 client gives requests up between HEADERS and END_STREAM (RST_STREAM / connection close): the downstream gauges must return to zero (found /repo 253e0ed06).",
 }
 for _k, _v in _ADD13.items():
     if _k in META and _v.strip() not in META[_k]["text"]:
